@@ -102,4 +102,47 @@ example :
         (fun r => (r.1.mpc, r.1.cbs, r.2)) = some (.inRead, [(1, .emitted)], [.c0 0x1B]) := by
   refine ⟨?_, ?_, ?_, ?_, ?_⟩ <;> decide +kernel
 
+/-- **Both normal forms at once.**  `TimerOk` table, start state meeting `FInv` with no timer pending, any
+    schedule that runs to `r`: pulling the expiries forward (`expNorm`) and then carrying the `Close()`
+    calls to the next `select` (`closeNorm`) gives a permutation of the schedule that runs to the same
+    `r` and is normal in both senses: every `expire` directly behind the arming `anywhere`, every
+    `closeSig` directly in front of a `select` or at the end.  (Carrying `Close()` calls forward never
+    separates an expiry from its arming statement.)  These are exactly the schedules `enumerate`
+    generates with both reductions on. -/
+theorem joint_normal_form (T : Table) (hT : VaxisModel.Lemmas.ParserRunFine.TimerOk T) (f0 : FSys)
+    (hinv : VaxisModel.Lemmas.ParserRunFine.FInv f0) (ha : f0.armed = none) (ls : List FLabel)
+    (r : FSys × List Seq) (h : FSys.run T f0 ls = some r) :
+    ∃ ls', FSys.run T f0 ls' = some r ∧ ls'.Perm ls ∧ expNormal T false f0 ls' = true ∧
+      closeNormal T f0 ls' = true := by
+  refine ⟨closeNorm T 0 f0 (expNorm T ls.length f0 ls), ?_, ?_, ?_, closeNorm_normal T _ 0 f0⟩
+  · rw [closeNorm_run]; simp only [cs, List.replicate_zero, List.nil_append]; rw [expNorm_run]; exact h
+  · exact (by simpa [cs] using closeNorm_perm T (expNorm T ls.length f0 ls) 0 f0 :
+      (closeNorm T 0 f0 (expNorm T ls.length f0 ls)).Perm (expNorm T ls.length f0 ls)).trans (expNorm_perm T _ f0 ls)
+  · refine closeNorm_expNormal T _ 0 f0 false ?_
+    rw [if_pos rfl]
+    exact expNorm_normal T hT ls.length f0 ls false (Nat.le_refl _) hinv (fun g hg => by rw [ha] at hg; cases hg)
+
+-- non-vacuity: a lone ESC, `Close()` right after the read returned, the timer expires late: normal in neither
+-- sense; the joint normal form has the `expire` behind the arming statement and the `Close()` in front of
+-- the `select`; same result.
+example :
+    (expNormal handTable false FSys.init
+      [.main, .readRet (.rune 0x1B), .closeSig, .main, .main, .main, .main, .main, .expire, .main, .cb 0] = false ∧
+     closeNormal handTable FSys.init
+      [.main, .readRet (.rune 0x1B), .closeSig, .main, .main, .main, .main, .main, .expire, .main, .cb 0] = false) ∧
+    closeNorm handTable 0 FSys.init (expNorm handTable 11 FSys.init
+      [.main, .readRet (.rune 0x1B), .closeSig, .main, .main, .main, .main, .main, .expire, .main, .cb 0]) =
+      [.main, .readRet (.rune 0x1B), .main, .main, .main, .main, .expire, .main, .closeSig, .main, .cb 0] ∧
+    (expNormal handTable false FSys.init
+      [.main, .readRet (.rune 0x1B), .main, .main, .main, .main, .expire, .main, .closeSig, .main, .cb 0] = true ∧
+     closeNormal handTable FSys.init
+      [.main, .readRet (.rune 0x1B), .main, .main, .main, .main, .expire, .main, .closeSig, .main, .cb 0] = true) ∧
+    FSys.run handTable FSys.init
+      [.main, .readRet (.rune 0x1B), .closeSig, .main, .main, .main, .main, .main, .expire, .main, .cb 0] =
+    FSys.run handTable FSys.init
+      [.main, .readRet (.rune 0x1B), .main, .main, .main, .main, .expire, .main, .closeSig, .main, .cb 0] ∧
+    (FSys.run handTable FSys.init
+      [.main, .readRet (.rune 0x1B), .main, .main, .main, .main, .expire, .main, .closeSig, .main, .cb 0]).isSome = true := by
+  refine ⟨⟨?_, ?_⟩, ?_, ⟨?_, ?_⟩, ?_, ?_⟩ <;> decide +kernel
+
 end VaxisModel.Props.C08SchedNormal
